@@ -5,6 +5,7 @@ under a virtual clock) executed on DjangoCache and on Django's own reference
 backend LocMemCache; every contract-defined return value and the visible
 contents (probed through get/has_key for every key and version) must
 agree."""
+import enum
 import itertools
 
 from .. import run, seq
@@ -220,7 +221,103 @@ def plan(tier):
     return base
 
 
+class Level(enum.IntEnum):
+    LOW = 1
+    HIGH = 2
+
+
+def value_set():
+    import decimal
+    from django.utils.safestring import SafeString
+    return [True, False, 0, 1, 1.0, -0.0, 'txt', '', b'bytes', None,
+            SafeString('<b>safe</b>'), Level.HIGH, decimal.Decimal('1.10'),
+            'x' * 40000, b'y' * 40000, [1, 'two'], {'k': (1, 2)}, (1, True),
+            2 ** 70, float('inf')]
+
+
+def typed_same(a, b):
+    """same() plus exact types inside containers."""
+    if type(a) is not type(b):
+        return False
+    if isinstance(a, (list, tuple)):
+        return len(a) == len(b) and all(typed_same(x, y)
+                                        for x, y in zip(a, b))
+    if isinstance(a, dict):
+        return list(a) == list(b) and all(typed_same(a[k], b[k]) for k in a)
+    return same(a, b)
+
+
+def values_unit(unit):
+    """Every kind of value comes back from every reading method exactly as
+    Django's reference backend returns it (type included)."""
+    _, params = unit
+    part = {'states': 0, 'transitions': 0, 'executions': 0, 'violations': [],
+            'outcomes': {}, 'samples': [], 'caps': [],
+            'label': 'grid/values'}
+    root = run.fresh_dir('dv')
+    ENV.reset(run.scratch())
+    dj, ref = make_django(root, params), make_ref(params)
+    readers = [
+        ('get', lambda c, k: c.get(k)),
+        ('get_many', lambda c, k: c.get_many([k])),
+        ('get_or_set', lambda c, k: c.get_or_set(k, 'other')),
+        ('has_key', lambda c, k: c.has_key(k)),
+        ('pop', lambda c, k: c.pop(k) if hasattr(c, 'pop') else
+         (c.get(k), c.delete(k))[0]),
+    ]
+    writers = [
+        ('set', lambda c, k, v: c.set(k, v)),
+        ('add', lambda c, k, v: c.add(k, v)),
+        ('set_many', lambda c, k, v: c.set_many({k: v})),
+        ('get_or_set', lambda c, k, v: c.get_or_set(k, v)),
+    ]
+    try:
+        n = 0
+        for v in value_set():
+            part['states'] += 1
+            for wname, w in writers:
+                for rname, r in readers:
+                    n += 1
+                    k = 'k%d' % n
+                    got_w, want_w = call(w, dj, k, v), call(w, ref, k, v)
+                    got, want = call(r, dj, k), call(r, ref, k)
+                    part['transitions'] += 1
+                    part['executions'] += 1
+                    okey = type(v).__name__
+                    part['outcomes'][okey] = part['outcomes'].get(okey, 0) + 1
+                    bad = not typed_same(got, want) or (
+                        wname in ('add', 'get_or_set')
+                        and not typed_same(got_w, want_w))
+                    if bad:
+                        part['violations'].append({
+                            'signature': {'clause': 'value-altered',
+                                          'type': type(v).__name__},
+                            'message': 'value-altered: params %r: %s(%r) -> '
+                                       '%r (reference %r), then %s -> %r '
+                                       '(%s), reference backend %r (%s)'
+                                       % (params, wname,
+                                          v if len(repr(v)) < 60 else
+                                          repr(v)[:40] + '...', got_w,
+                                          want_w, rname,
+                                          got if len(repr(got)) < 60 else
+                                          repr(got)[:40] + '...',
+                                          type(got).__name__,
+                                          want if len(repr(want)) < 60 else
+                                          repr(want)[:40] + '...',
+                                          type(want).__name__),
+                            'replay': {'engine': 'GRID',
+                                       'module': 'props.c19',
+                                       'params': params, 'writer': wname,
+                                       'reader': rname, 'value': repr(v)[:80]}})
+    finally:
+        dj.close()
+        run.drop(root)
+    return part
+
+
 def work(unit):
+    if unit[0] == 'values':
+        return values_unit(unit)
     params, depth, seed, cap, chunk, nchunks = unit
     ab = run.shuffled(alphabet(), seed, 'dj')
     part = seq.bfs(lambda: DjangoWorld(params), ab, depth,
@@ -238,6 +335,7 @@ def main(tier, seed):
     for i, p in enumerate(plan(tier)):
         d = depth if tier == 'quick' or i % 4 else 4
         units += [(p, d, seed, cap, ch, 4) for ch in range(4)]
+        units.append(('values', p))
     units = run.shuffled(units, seed)
     for part in run.pmap(work, units):
         rep.merge(part, part.get('label'))
